@@ -27,7 +27,8 @@ TECHNIQUE = ('runtime monitoring: reference-model monitor (independently recompu
 LEVEL_TEXT = ('Random activated samples (1-3 atoms, masses, environments and exposures over the quantified ranges) are '
               'solved for targets from 1e-9 to 10 times the activity at removal, including the band just below it and '
               'the exact boundary, with fixed and random rest-time lists; every returned time is judged against an '
-              'independent sum of exponentials and every exception against the single allowed type.')
+              'independent sum of exponentials and every exception against the single allowed type.'
+              ' Added in rounds 4-7: the documented command line (activation.demo), refused requests on the reused Sample and as the first request on a new one.')
 LEVEL_NOTE = ('Trusted: activation.activity for the activities at removal (judged separately by C14), the csv reader in '
               'pvmon/ref/activation_ref.py for half-lives, IEEE double arithmetic for the sum of exponentials '
               '(0.1 % band).  Targets within 1e-9 relative of A(0) are judged only for single-product samples.')
